@@ -230,6 +230,42 @@ class ASTRewriter(ast.NodeTransformer):
             )
         ]
 
+        # The else branch is emitted after the (conditional) assignments of the
+        # then branch, but it has to read the variables as they were before the
+        # if: keep an alias of every variable that the then branch assigns and the
+        # else branch reads before assigning it itself
+        body_targets = set()
+        for b in body:
+            if isinstance(b, ast.Assign) and len(b.targets) == 1:
+                if isinstance(b.targets[0], ast.Name):
+                    body_targets.add(b.targets[0].id)
+
+        else_targets = set()
+        for b in orelse:
+            if not isinstance(b, ast.Assign) or len(b.targets) != 1:
+                continue
+            if not isinstance(b.targets[0], ast.Name):
+                continue
+
+            for name in sorted(body_targets - else_targets):
+                if name.startswith("_iftarg") or name not in self.env:
+                    continue
+
+                ip = IsNamePresent(name)
+                ip.visit(b.value)
+                if not ip.present:
+                    continue
+
+                pre_name = f"_ifpre{test_name[7:]}_{name}"
+                pre_assign = ast.Assign(
+                    targets=[ast.Name(id=pre_name)], value=ast.Name(id=name)
+                )
+                if all(ast.dump(pre_assign) != ast.dump(x) for x in if_l):
+                    if_l.append(pre_assign)
+                b.value = NameValReplacer(name, ast.Name(id=pre_name)).visit(b.value)
+
+            else_targets.add(b.targets[0].id)
+
         for b in body:
             if not isinstance(b, ast.Assign):
                 raise Exception("if body only allows assigns: ", ast.dump(b))
